@@ -1,4 +1,5 @@
 import IncanModel.Sem.Regroup
+import IncanModel.Sem.Derive
 import IncanModel.Driver.Util
 namespace Incan.Driver
 open Incan.Core
@@ -149,7 +150,25 @@ mutual
     | .else_ b => s!"else({renderB b})"
 end
 
+/-- `C0:a,b;C1:b;C2:` → root-first levels (class, methods it declares). -/
+def parseLevels (s : String) : List (String × List String) :=
+  (s.splitOn ";").map fun l => match l.splitOn ":" with
+    | [c, ms] => (c, if ms == "" then [] else ms.splitOn ",")
+    | _ => (l, [])
+
+/-- For every class of the chain and every method it has: which class's body runs (model: the entries
+`collect_inherited_methods` leaves in the impl block). -/
+def dispatchTable (levels : List (String × List String)) : String :=
+  let cs : List (Incan.Derive.Decl (List String)) := Incan.Derive.chainDecls levels none
+  let names := ["a", "b", "c", "d"]
+  let lines := (List.range levels.length).flatMap fun i =>
+    let cname := ((levels[i]?).map (·.1)).getD "?"
+    let entries := Incan.Derive.inheritedMethods cs cs.length cname
+    names.filterMap fun m => (Incan.Derive.dispatch entries m).map fun o => s!"{i}.{m}={o}"
+  "done " ++ (if lines.isEmpty then "-" else ",".intercalate lines)
+
 def handleC01 : List String → String
+  | ["dispatch", levels] => dispatchTable (parseLevels levels)
   | [_kind, args, enc, _py] =>
     (match parseCB (enc.splitOn ";") with
     | some (body, []) =>
